@@ -147,6 +147,13 @@ Proof.
   destruct scheme; destruct host; try congruence; reflexivity.
 Qed.
 
+(* in general: the escaped host between "//" and "/" *)
+Lemma url_string_escaped scheme host : scheme <> [] \/ host <> [] ->
+  url_string scheme host = (match scheme with [] => [] | _ => scheme ++ [58] end) ++ [47; 47] ++ escape_host host ++ [47].
+Proof.
+  intros H. unfold url_string. destruct scheme; destruct host; try reflexivity. destruct H; congruence.
+Qed.
+
 Definition colon_slash_slash : str := [58; 47; 47].
 
 Lemma url_string_origin_form secure host : host_plain host = true ->
